@@ -1,0 +1,22 @@
+//go:build verif
+
+// Contracts for the verification machinery in /verif (comment-only; compiled only with -tags verif).
+
+package metadata
+
+// ---- C02: operations listed in metadata are in chronological (time, then number) order ----
+//
+//@ spec mdLexLess(t1 uint64, n1 uint64, t2 uint64, n2 uint64) bool { t1 < t2 || (t1 == t2 && n1 < n2) }
+//@ spec mdOpLess(a *operation.AnchoredOperation, b *operation.AnchoredOperation) bool {
+//@     mdLexLess(a.TransactionTime, a.TransactionNumber, b.TransactionTime, b.TransactionNumber) }
+//@ spec mdNonNil(ops []*operation.AnchoredOperation) bool { forall q int :: 0 <= q && q < len(ops) ==> ops[q] != nil }
+//
+//@ func sortOperations
+//@   requires mdNonNil(ops)
+//@   closure 1
+//@     relation mdOpLess over ops
+//@     requires 0 <= i && i < len(ops) && 0 <= j && j < len(ops) && mdNonNil(ops)
+//@   end
+//@   ensures forall a int, b int :: 0 <= a && a < b && b < len(ops) ==> !mdOpLess(ops[b], ops[a])
+//@   ensures mdNonNil(ops)
+//@   modifies elems(ops)
